@@ -15,7 +15,7 @@ RULE = ("one evaluation = one (stack shape, construction route, operation): shap
 ASSUMPTIONS = ["siblings of an emitting/consuming sublayer inside the same group are unspecified by the statement: only 'at most once' is required of them",
                "for a deferred event only layers beyond the first receiving item are required to wait for the loop",
                "the deferred queue is shared by all stacks of a process; it is drained between cases"]
-REQUIRED = ["passthrough_compositions", "passthrough_ok", "earlier_stacks_rechecked", "earlier_stacks_intact", "shape_ops", "event_ops", "detached_ops", "helper_combos", "default_stack_combos", "interface_lookups", "groups_seen"]
+REQUIRED = ["own_stack_interface_lookups", "passthrough_compositions", "passthrough_ok", "earlier_stacks_rechecked", "earlier_stacks_intact", "shape_ops", "event_ops", "detached_ops", "helper_combos", "default_stack_combos", "interface_lookups", "groups_seen"]
 EXHAUSTIVE = None
 
 LOG = []
@@ -514,6 +514,43 @@ def helpers(acc):
         judge_layerset(acc, flat_names(st2), dict.fromkeys(keys, True), {"helper": "push-pop-push"}, top="Rec_app2")
         kept.append(("builder.push/pop/push", st2))
         recheck_earlier(acc, kept)
+        # several stacks with the library's interface layer (the class applications derive from) on top: each one finds the
+        # interfaces of ITS OWN layers, whichever stack was asked before
+        from yowsup.layers.interface import YowInterfaceLayer
+        from yowsup.layers.network import YowNetworkLayer as _Net
+        from yowsup.layers.auth import YowAuthenticationProtocolLayer as _Auth
+
+        class VerifApp(YowInterfaceLayer):
+            pass
+        apps = []
+        for k in range(4):
+            stk = YowStackBuilder().pushDefaultLayers().push(VerifApp).build() if k % 2 == 0 else YowStack(YowStackBuilder.getDefaultLayers() + (VerifApp,), reversed=False)
+            top = None
+            i_ = 0
+            while True:
+                try:
+                    top = stk.getLayer(i_)
+                except IndexError:
+                    break
+                i_ += 1
+            apps.append((stk, top))
+        order = list(range(4)) + [2, 0, 3, 1]
+        for k in order:
+            stk, top = apps[k]
+            for cls in (_Net, _Auth):
+                acc.count("interface_lookups")
+                acc.count("own_stack_interface_lookups")
+                try:
+                    itf = top.getLayerInterface(cls)
+                    lay = getattr(itf, "_layer", None)
+                    owner = lay.getStack() if lay is not None else None
+                except Exception as e:  # noqa
+                    acc.violation("interface-lookup-raises:%s" % type(e).__name__, "getLayerInterface(%s) from an interface layer raised %r" % (cls.__name__, e), {"helper": "own-stack-interface"})
+                    continue
+                if itf is None or owner is not stk:
+                    acc.violation("interface-of-other-stack", "stack #%d's application layer got the %s interface of %s" % (k, cls.__name__, "nothing" if itf is None else "another stack"),
+                                  {"helper": "own-stack-interface", "stack": k, "class": cls.__name__})
+
         # interfaces of layers inside the default parallel groups are found by class
         from yowsup.layers.protocol_iq import YowIqProtocolLayer
         from yowsup.layers.network import YowNetworkLayer
